@@ -297,6 +297,16 @@ def value_origins(f, v, seen):
             return {'include-stack'}
         if a.kind == 'reg':
             g = f.defs.get(a.name)
+            # a member of a local record (an out-parameter block filled by a helper): whatever was stored into that member
+            if g is not None and g.op == 'getelementptr' and g.ops[0].kind == 'reg' and len(g.ops) == 3 and g.ops[2].kind == 'int':
+                rec = f.defs.get(g.ops[0].name)
+                if rec is not None and rec.op == 'alloca':
+                    vals = _member_stores(f, g.ops[0].name, g.srcty.strip(), g.ops[2].ival, 0)
+                    if vals:
+                        out = set()
+                        for f2, v2 in vals:
+                            out |= value_origins(f2, v2, seen if f2 is f else set())
+                        return out
             while g is not None and g.op in ('getelementptr', 'bitcast'):
                 base = g.ops[0]
                 bb = base.strip_casts() if base.kind == 'cexpr' else base
@@ -305,6 +315,28 @@ def value_origins(f, v, seen):
                 g = f.defs.get(base.name) if base.kind == 'reg' else None
         return {'a pointer loaded from %s' % describe(f, a)}
     return {d.op}
+
+
+def _member_stores(f, reg, sty, idx, depth):
+    """[(function, value operand)] of every store into member idx of the record reg points to: in f and in the functions
+    of the unit that f hands the record to"""
+    out = []
+    if depth > 3:
+        return out
+    for ins in f.instrs():
+        if ins.op == 'store' and ins.ops[1].kind == 'reg':
+            g = f.defs.get(ins.ops[1].name)
+            if g is not None and g.op == 'getelementptr' and g.ops[0].kind == 'reg' and g.ops[0].name == reg and len(g.ops) == 3 \
+                    and g.ops[2].kind == 'int' and g.ops[2].ival == idx and g.srcty.strip() == sty:
+                out.append((f, ins.ops[0]))
+        if ins.op == 'call' and ins.callee_name():
+            h = f.module.funcs.get(ins.callee_name())
+            if h is None:
+                continue
+            for k, a in enumerate(ins.args):
+                if a.kind == 'reg' and a.name == reg and k < len(h.params):
+                    out.extend(_member_stores(h, h.params[k].name, sty, idx, depth + 1))
+    return out
 
 
 def describe(f, a):
